@@ -87,7 +87,18 @@ def make_case(rng, i):
         elif r < 0.46:
             steps.append({"op": "other", "action": "invalid_def"})
             kinds.add(("invalid-definition",))
-        elif r < 0.48 and any(not s["final"] for s in spec["states"]):
+        elif r < 0.52:
+            # an unrelated class whose state ids equal names this machine resolves on itself, then a
+            # NEW instance of this machine's class (must be accepted and behave like any other)
+            steps.append({"op": "other", "action": "states_named_like_attrs"})
+            kinds.add(("unrelated-class-with-states-named-like-our-callbacks",))
+            if not other_built:
+                steps.append({"op": "other", "action": "construct", "listeners": list(early)})
+                other_built = True
+        elif r < 0.58:
+            steps.append({"op": "other", "action": "construct_incomplete"})
+            kinds.add(("same-class-over-incomplete-providers",))
+        elif r < 0.60 and any(not s["final"] for s in spec["states"]):
             steps.append({"op": "other", "action": "subclass"})
             kinds.add(("subclass",))
             w8 = True
@@ -108,7 +119,7 @@ def classify(case, rule, detail, log, fault, ck):
 
 def extra_check(case, run, log, ck, fault):
     other_log = getattr(run, "other_log", None)
-    n = sum(1 for e in log if e["k"] == "note" and e.get("what") == "other-definition")
+    n = sum(1 for e in log if e["k"] == "note" and e.get("what") in ("other-definition", "incomplete-construct"))
     p = sum(1 for e in log if e["k"] == "note" and e.get("what") == "poke")
     case["_counters"] = {"other_definitions": n, "pokes": p}
     bad = next((e for e in log if e["k"] == "note" and e.get("what") == "other-definition" and e.get("exc")), None)
